@@ -20,6 +20,7 @@ from ..tlaparse import to_json
 
 CONTENTS = {
     "lf": b"alpha line\nbeta line\n",
+    "lf2": b"omega line\nzeta line\n",
     "lfcr": b"alpha line\r\nbeta line\r\n",
     "crlf": b"gamma line\r\ndelta line\r\n",
     "bin": b"\x00\x01binary\r\nwith cr lf pairs\r\n\xff",
@@ -76,14 +77,18 @@ class Lab:
     def path(self, p):
         return os.path.join(self.data, FILES[p])
 
-    def edit(self, p, c):
+    def edit(self, p, c, how="rewrite"):
         fp = self.path(p)
+        old = os.stat(fp).st_mtime_ns if os.path.exists(fp) else None
         tmp = fp + ".new"
         with open(tmp, "wb") as fh:
             fh.write(CONTENTS[c])
         os.replace(tmp, fp)
-        self.tick += 1_000_000
-        os.utime(fp, ns=(self.tick, self.tick))
+        if how == "keep-mtime" and old is not None:
+            os.utime(fp, ns=(old, old))         # a new inode carrying the old mtime
+        else:
+            self.tick += 1_000_000
+            os.utime(fp, ns=(self.tick, self.tick))
 
     def add(self, s, how):
         from dvc_data.hashfile.build import build
@@ -157,7 +162,7 @@ def run_trace(case):
             lab.edit(p, c)
         for a in case["ops"]:
             if a["op"] == "Edit":
-                lab.edit(a["p"], a["c"])
+                lab.edit(a["p"], a["c"], a.get("how", "rewrite"))
             elif a["op"] == "Add":
                 lab.add(a["s"], a["how"])
             elif a["op"] == "Migrate":
@@ -202,15 +207,22 @@ def directed_cases():
             for h2 in hows[second]:
                 for init in ({"p": "crlf", "q": "lf"}, {"p": "lfcr", "q": "lf"}, {"p": "bin", "q": "crlf"}):
                     ops = [{"op": "Add", "s": first, "how": h1}, {"op": "Add", "s": second, "how": h2},
-                           {"op": "Migrate", "s": first, "t": second}, {"op": "Edit", "p": "p", "c": "lf"},
+                           {"op": "Migrate", "s": first, "t": second}, {"op": "Edit", "p": "p", "c": "lf", "how": "rewrite"},
                            {"op": "Add", "s": second, "how": h2}, {"op": "Migrate", "s": second, "t": first}]
                     cases.append({"id": 100000 + n, "init": init, "ops": ops})
                     n += 1
+    # a file replaced by one of the same size carrying the old mtime, between two adds by every code path
+    for s_ in LOCAL:
+        for how in hows[s_]:
+            ops = [{"op": "Add", "s": s_, "how": how}, {"op": "Edit", "p": "p", "c": "lf2", "how": "keep-mtime"},
+                   {"op": "Add", "s": s_, "how": how}, {"op": "Edit", "p": "p", "c": "lf", "how": "keep-mtime"}, {"op": "Add", "s": s_, "how": how}]
+            cases.append({"id": 100000 + n, "init": {"p": "lf", "q": "bin"}, "ops": ops})
+            n += 1
     for how in ("stage", "hardlink", "save", "upload", "file"):
         for t in LOCAL:
             for init in ({"p": "crlf", "q": "lf"}, {"p": "bin", "q": "lfcr"}):
                 ops = [{"op": "Add", "s": "plain", "how": how}, {"op": "Migrate", "s": "plain", "t": t},
-                       {"op": "Edit", "p": "q", "c": "crlf"}, {"op": "Add", "s": t, "how": "hardlink"},
+                       {"op": "Edit", "p": "q", "c": "crlf", "how": "rewrite"}, {"op": "Add", "s": t, "how": "hardlink"},
                        {"op": "Migrate", "s": t, "t": "plain"}]
                 cases.append({"id": 100000 + n, "init": init, "ops": ops})
                 n += 1
@@ -222,7 +234,7 @@ def check(run: core.Run, replay=None):
     quick = run.tier == "quick"
     validate.run_design(run, "MC_MultiAlg", "MultiAlg_quick.cfg" if quick else "MultiAlg_thorough.cfg", workers=16,
                         required_actions=["Edit", "Add", "Migrate"],
-                        constants={"stores": "md5-dos2unix + md5", "contents": 4, "paths": 2, "MaxSteps": 6 if quick else 8})
+                        constants={"stores": "md5-dos2unix + md5", "contents": 4, "paths": 2, "MaxSteps": 5 if quick else 6})
     if replay is not None:
         cases = [replay]
     else:
